@@ -24,7 +24,7 @@ type Cond struct {
 }
 
 type Op struct {
-	K    string `json:"k"` // e n nf x x- g gv gf gvf c l i sa sc
+	K    string `json:"k"` // e n nf x x- g gv gf gvf c l i sa sc cl sf (FILENAME = S) sfs (FS = S)
 	N    int    `json:"n,omitempty"`
 	V    int    `json:"v,omitempty"`
 	F    string `json:"f,omitempty"`
@@ -59,10 +59,11 @@ type Case struct {
 	Awk     string              `json:"awk,omitempty"`
 	Note    string              `json:"note,omitempty"`   // raw cases: what is being probed
 	Expect  string              `json:"expect,omitempty"` // raw cases: expected output (+ "!status: n", "!error: …")
+	Sp      *SpProg             `json:"sp,omitempty"`     // class "special" (special.go): its own program shape and raw files
 }
 
 // noModel: raw AWK programs are outside the rule language of the Lean machine
-func (cs *Case) noModel() bool { return cs.Class == "raw" }
+func (cs *Case) noModel() bool { return cs.Class == "raw" || cs.Class == "special" }
 
 var varNames = []string{"v0", "v1", "v2"}
 
@@ -131,6 +132,8 @@ func opsLean(ops []Op, b *strings.Builder) {
 			fmt.Fprintf(b, "sc %d ", o.N)
 		case "cl":
 			fmt.Fprintf(b, "cl %s ", vh.HxS(o.F))
+		case "sf", "sfs":
+			fmt.Fprintf(b, "%s %s ", o.K, vh.HxS(o.S))
 		default:
 			panic("bad op " + o.K)
 		}
@@ -386,6 +389,16 @@ func (g *awkGen) ops(ops []Op, ind string) string {
 			}
 		case "sc":
 			fmt.Fprintf(&b, "%sARGC = %d\n", ind, o.N)
+		case "sf", "sfs":
+			name := map[string]string{"sf": "FILENAME", "sfs": "FS"}[o.K]
+			if g.pick(3) == 0 { // the assignment is made by a user function
+				g.nfn++
+				fn := fmt.Sprintf("sv%d", g.nfn)
+				g.funcs = append(g.funcs, fmt.Sprintf("function %s(x) {\n  %s = x\n  return 1\n}\n", fn, name))
+				fmt.Fprintf(&b, "%szz = %s(%s) + 1\n", ind, fn, awkStr(o.S))
+			} else {
+				fmt.Fprintf(&b, "%s%s = %s\n", ind, name, awkStr(o.S))
+			}
 		case "cl":
 			if g.pipeOf[o.F] {
 				fmt.Fprintf(&b, "%sclose(%s)\n", ind, awkStr("cat "+o.F))
